@@ -34,7 +34,7 @@ from scanpipe import T, P
 # Genuine defects of the unchanged tree found by this check and not (yet) repaired; each is routed
 # through ctx.report_failure with exactly this key (any other failure is still a VIOLATION).
 #
-# Empty: the five findings this check produced were all repaired in /repo and pass without
+# The five findings this check produced first were all repaired in /repo and pass without
 # suppression (re-validated against HEAD through the corpus witnesses, which run first):
 #   gen:varargs:skipped-parameter                                   1110ea5  corpus varargs-skip
 #   gen:field-callback-non-introspectable:skip-propagated-callback  efccda4  corpus field-callback-skip-propagated
@@ -42,7 +42,21 @@ from scanpipe import T, P
 #   gen:get-property-mismatch:several-getter-candidates             a10e011  corpus class-two-getter-candidates
 #   shipped:gir/freetype2-2.0.gir:...alias[Int32]...                e90adbd  (shipped files are all judged)
 # The keys above are still what `classify` produces should one of them come back.
-PENDING_FINDINGS = {}
+PENDING_FINDINGS = {
+    'gen:invoker-not-a-method:virtual-annotation-on-constructor-or-function':
+        "a (virtual slot) annotation on a constructor or a static function of a class makes that name the "
+        "invoker of the virtual method: <virtual-method invoker=\"new\"> although `new` is a <constructor>, not a "
+        "<method> (MainTransformer._pass_read_annotations2 accepts any ast.Function below the class)",
+    'gen:getter-mismatch:getter-claimed-for-another-property':
+        "read-only boolean properties `is-active` and `active` (in this order) with methods get_active and "
+        "is_active: is_active is first paired with `is-active` (getter=\"is_active\"), then "
+        "_pair_property_accessors overwrites its get_property with `active` (a lower-priority candidate there, "
+        "not chosen) and never restores it: property is-active names getter is_active, which claims "
+        "glib:get-property=\"active\"",
+    'gen:get-property-mismatch:getter-of-another-property':
+        "same input: method is_active carries glib:get-property=\"active\" but property `active` names "
+        "getter=\"get_active\" (is_active is the getter of property `is-active`)",
+}
 
 EXEMPT = ('GLib.DestroyNotify', 'Gio.AsyncReadyCallback')
 
@@ -340,6 +354,13 @@ class B(object):
         elif r < 0.18:
             ann.append('foreign')
             self.features.add('foreign-record')
+        if rng.random() < 0.35:
+            cf = rng.choice(['c', 'f', 'cf', 'cf'])
+            if 'c' in cf:
+                ann.append('copy-func %s_copy' % uscore(n))
+            if 'f' in cf:
+                ann.append('free-func %s_free' % uscore(n))
+            self.features.add('copy-free-' + cf)
         if ann or fann:
             self.block(n, ann, fann)
         self.records.append(n)
@@ -435,6 +456,14 @@ class B(object):
                 ann.append(rng.choice(['out', 'inout', 'out caller-allocates', 'nullable', 'optional']))
             if ann:
                 pann[pname] = ann
+        if self.records and rng.random() < 0.06:
+            # a local structure handed out through an (out) parameter, with and without (transfer)
+            rec = rng.choice(self.records)
+            ca = rng.random() < 0.3
+            params.append({'name': 'o', 'type': P(T(rec)) if ca else P(T(rec), 2)})
+            pann['o'] = ['out caller-allocates' if ca else 'out'] + \
+                ([] if rng.random() < 0.5 else ['transfer ' + rng.choice(['none', 'full'])])
+            self.features.add('out-local-record')
         if rng.random() < 0.08:
             params.append({'ellipsis': True})
             self.features.add('varargs')
@@ -443,7 +472,11 @@ class B(object):
                 self.features.add('varargs-skip')
         if rng.random() < 0.1:
             params.append({'name': 'error', 'type': P(T('GError'), 2)})
-        rt, rann, rtag = self.pick('ret') if rng.random() < 0.5 else (T('void'), [], 'void')
+        if self.records and rng.random() < 0.12:
+            rt, rann, rtag = P(T(rng.choice(self.records))), [], 'local:rec'
+            self.features.add('return-local-record')
+        else:
+            rt, rann, rtag = self.pick('ret') if rng.random() < 0.5 else (T('void'), [], 'void')
         if rtag in ('local:rec',) and rng.random() < 0.6:
             rann = rann + ['transfer ' + rng.choice(['none', 'full'])]
         if rtag != 'void' and rng.random() < 0.05:
@@ -506,14 +539,26 @@ class B(object):
                 self.block(fnm, ['virtual ' + vname])
                 self.features.add('invoker-by-annotation')
         self.units.append([{'d': 'function', 'name': us + '_new', 'ret': P(T(n)), 'params': []}])
+        if vf and rng.random() < 0.06:
+            # (virtual) annotation on something that is not a method
+            if rng.random() < 0.5:
+                self.block(us + '_new', ['virtual ' + vf[0][0]])
+                self.features.add('virtual-annotation-on-constructor')
+            else:
+                self.units.append([{'d': 'function', 'name': us + '_stat', 'ret': T('void'),
+                                    'params': [{'name': 'x', 'type': T('int')}]}])
+                self.block(us + '_stat', ['virtual ' + vf[0][0]])
+                self.features.add('virtual-annotation-on-static-function')
         props = []
         for j in range(rng.randint(0, 3)):
-            pn = rng.choice(['title', 'count', 'active', 'peer', 'hid', 'long-name'])
+            pn = rng.choice(['title', 'count', 'active', 'peer', 'hid', 'long-name', 'is-active', 'active'])
             if pn in [p[0] for p in props]:
                 continue
             ptype = {'title': 'gchararray', 'count': 'gint', 'active': 'gboolean', 'peer': 'GObject',
-                     'hid': 'IncHidden', 'long-name': 'gchararray'}[pn]
+                     'hid': 'IncHidden', 'long-name': 'gchararray', 'is-active': 'gboolean'}[pn]
             flags = rng.choice([1, 2, 3, 3, 3, 7, 11])
+            if pn == 'is-active' and rng.random() < 0.6:
+                flags = 1       # read-only boolean: the plain name is_active is a getter candidate
             props.append((pn, ptype, flags))
             un = pn.replace('-', '_')
             ctype = {'gchararray': P(T('char')), 'gint': T('int'), 'gboolean': T('gboolean'),
@@ -528,7 +573,14 @@ class B(object):
                 if ptype in ('gchararray', 'GObject'):
                     self.block('%s_get_%s' % (us, un), None, None, ['transfer none'])
                 self.features.add('getter')
-            if ptype == 'gboolean' and rng.random() < 0.4:
+            if pn == 'is-active':
+                if rng.random() < 0.7 and (us + '_is_active') not in [d['name'] for u in self.units for d in u]:
+                    self.units.append([{'d': 'function', 'name': us + '_is_active', 'ret': T('gboolean'),
+                                        'params': [{'name': 'self', 'type': P(T(n))}]}])
+                self.features.add('property-is-active')
+                continue
+            if ptype == 'gboolean' and rng.random() < 0.4 and \
+                    ('%s_is_%s' % (us, un)) not in [d['name'] for u in self.units for d in u]:
                 self.units.append([{'d': 'function', 'name': '%s_is_%s' % (us, un), 'ret': T('gboolean'),
                                     'params': [{'name': 'self', 'type': P(T(n))}]}])
                 self.features.add('getter-is')
@@ -648,6 +700,66 @@ def gen_chain(rng):
     base = rng.choice(['unknown', 'unknown', 'exotic', 'hidden', 'good', 'incgood'])
     b, n = build_chain(rng, kinds, base, use=rng.choice(['function', 'function', 'method', 'return']))
     return b.cfg(), ['chain:%s:%s' % (kinds, base)]
+
+
+BARE_KINDS = ('struct', 'union')
+BARE_CF = ('', 'c', 'f', 'cf')
+BARE_FLAVOURS = ('plain', 'foreign', 'skip', 'boxed')
+BARE_USES = ('fret', 'mret', 'fout', 'mout', 'fcout')
+BARE_TRANSFERS = (None, 'none', 'full')
+
+
+def build_bare(rng, kind, cf, flavour, depth, use, transfer):
+    """An unregistered / foreign / skipped / registered structure or union with a (copy-func) and / or a
+    (free-func) or neither, handed out by a function or method: returned by pointer, or through an (out) /
+    (out caller-allocates) parameter, directly or through `depth` typedefs, with and without (transfer)."""
+    b = B(rng)
+    n = 'FooP'
+    b.units.append([{'d': kind, 'name': '_' + n, 'fields': [{'name': 'x', 'type': T('int')}]},
+                    {'d': 'typedef', 'name': n, 'type': {'k': kind, 'n': '_' + n}}])
+    ann = []
+    if 'c' in cf:
+        ann.append('copy-func foo_p_copy')
+    if 'f' in cf:
+        ann.append('free-func foo_p_free')
+    if flavour == 'foreign':
+        ann.append('foreign')
+    elif flavour == 'skip':
+        ann.append('skip')
+    elif flavour == 'boxed':
+        b.units.append([{'d': 'function', 'name': 'foo_p_get_type', 'ret': T('GType'), 'params': []}])
+        b.dump.append('<boxed name="FooP" get-type="foo_p_get_type"/>')
+    if ann:
+        b.block(n, ann)
+    tn = n
+    for d in range(depth):
+        an = 'FooPA%d' % d
+        b.units.append([{'d': 'typedef', 'name': an, 'type': T(tn)}])
+        tn = an
+    params = [{'name': 'self', 'type': P(T(n))}] if use[0] == 'm' else []
+    name = 'foo_p_next' if use[0] == 'm' else 'foo_make'
+    tann = ['transfer ' + transfer] if transfer else []
+    if use.endswith('ret'):
+        b.units.append([{'d': 'function', 'name': name, 'ret': P(T(tn)), 'params': params}])
+        b.block(name, None, None, tann)
+    else:
+        ca = use.endswith('cout')
+        params.append({'name': 'o', 'type': P(T(tn)) if ca else P(T(tn), 2)})
+        b.units.append([{'d': 'function', 'name': name, 'ret': T('void'), 'params': params}])
+        b.block(name, None, {'o': ['out caller-allocates' if ca else 'out'] + tann})
+    return b
+
+
+def all_bare():
+    for spec in itertools.product(BARE_KINDS, BARE_CF, BARE_FLAVOURS, (0, 1, 2), BARE_USES, BARE_TRANSFERS):
+        yield spec
+
+
+def bare_case(rng, spec):
+    b = build_bare(rng, *spec)
+    tag = 'bare:%s:%s:%s:%d:%s:%s' % (spec[0], spec[1] or '-', spec[2], spec[3], spec[4], spec[5] or '-')
+    return b.cfg(), ['bare-handed-out', 'bare-cf-' + (spec[1] or 'none'), 'bare-' + spec[2], 'bare-use-' + spec[4],
+                     'bare-transfer-' + (spec[5] or 'unstated')], tag
 
 
 def all_chains(maxlen):
@@ -917,12 +1029,35 @@ def classify(tree, finding, real=None):
             if code == 'shadowed-by-not-mutual' and sib and 'shadowed-by' in dict(map(tuple, sib[0]['a'])):
                 return 'gen:shadowed-by-not-mutual:rename-to-chain'
         return 'gen:%s:other' % code
+    if code == 'invoker-not-a-method':
+        # v -> m : m is a <constructor> or a <function> of the same type
+        node = _find_path(tree, path)
+        m = re.match(r'(.*)->(.*)$', finding['detail'])
+        if node is not None and m:
+            kids = [(k['t'], dict(map(tuple, k['a']))) for k in node[0]['c']]
+            if any(t in ('constructor', 'function') and a.get('name') == m.group(2) for t, a in kids):
+                return 'gen:invoker-not-a-method:virtual-annotation-on-constructor-or-function'
+        return 'gen:invoker-not-a-method:other'
+    if code == 'getter-mismatch':
+        # p -> m : method m exists, but claims glib:get-property of ANOTHER existing property
+        node = _find_path(tree, path)
+        m = re.match(r'(.*)->(.*)$', finding['detail'])
+        if node is not None and m:
+            kids = [(k['t'], dict(map(tuple, k['a']))) for k in node[0]['c']]
+            meth = [a for t, a in kids if t == 'method' and a.get('name') == m.group(2)]
+            pnames = [a.get('name') for t, a in kids if t == 'property']
+            if meth and meth[0].get('glib:get-property') not in (None, m.group(1)) \
+                    and meth[0]['glib:get-property'] in pnames:
+                return 'gen:getter-mismatch:getter-claimed-for-another-property'
+        return 'gen:getter-mismatch:other'
     if code == 'get-property-mismatch':
         # m -> p : p's getter is ANOTHER method that also claims glib:get-property=p (several heuristic candidates)
         node = _find_path(tree, path)
         m = re.match(r'(.*)->(.*)$', finding['detail'])
         if node is not None and m:
             kids = [(k['t'], dict(map(tuple, k['a']))) for k in node[0]['c']]
+            if any(t == 'property' and a.get('name') != m.group(2) and a.get('getter') == m.group(1) for t, a in kids):
+                return 'gen:get-property-mismatch:getter-of-another-property'
             prop = [a for t, a in kids if t == 'property' and a.get('name') == m.group(2)]
             if prop and prop[0].get('getter') and prop[0]['getter'] != m.group(1):
                 other = [a for t, a in kids if t == 'method' and a.get('name') == prop[0]['getter']]
@@ -1319,6 +1454,20 @@ def run(ctx):
         done += len(batch)
     ctx.log('generated namespaces: %d' % done)
 
+    # ---- structures / unions handed out by pointer: copy-func / free-func x foreign / skipped / registered x
+    #      return / out parameter x typedef depth x (transfer): all of them (thorough), a sample (quick)
+    specs = list(all_bare())
+    if ctx.quick():
+        specs = rng.sample(specs, 150)
+    batch = []
+    for spec in specs:
+        batch.append(bare_case(rng, spec))
+        if len(batch) >= 200:
+            process_batch(ctx, cnt, stubs, incdir, batch, ndis, samples, state)
+            batch = []
+    process_batch(ctx, cnt, stubs, incdir, batch, ndis, samples, state)
+    ctx.log('bare structures handed out: %d of %d' % (len(specs), len(list(all_bare()))))
+
     # ---- exhaustive chains (thorough) / a slice of them (quick)
     exhaustive = False
     chains = 0
@@ -1393,7 +1542,11 @@ def run(ctx):
                 'with a supplied dump, rename-to pairs and chains) over pools of fundamental, exotic, unresolved, '
                 'included, included-but-marked, callback and container types with and without scope / transfer / '
                 'element-type / closure / destroy / length annotations, declaration units shuffled; explicit reference '
-                'chains base <- alias|callback|record-field ... <- user of depth 1-6; the exhaustive chain family '
+                'chains base <- alias|callback|record-field ... <- user of depth 1-6; the family of structures / unions '
+                'with copy-func / free-func / both / neither x plain / foreign / skipped / registered, handed out by '
+                'functions and methods as return value, (out) or (out caller-allocates) parameter, directly or '
+                'through 1-2 typedefs, with (transfer none|full) or without (all 1440 in thorough, 150 sampled in '
+                'quick); the exhaustive chain family '
                 '(every kind sequence x 2 bases x all declaration orders); plus every GIR file shipped or expected '
                 'in the repository. Every namespace goes through the REAL pipeline; girWellFormed (Lean) is evaluated '
                 'on the emitted GIR; real flags / skips / accessor names / loop rounds are compared with the pass model. non-trivial = '
